@@ -5,7 +5,7 @@ PREFIXES = ("C19-",)
 
 
 def run(ctx):
-    cc.run(ctx, PREFIXES, nsim=ctx.pick(40, 1200), nrand=ctx.pick(70, 3000), sim_depth=ctx.pick(12, 16),
+    cc.run(ctx, PREFIXES, nsim=ctx.pick(40, 700), nrand=ctx.pick(70, 1400), sim_depth=ctx.pick(12, 16),
            what="after every call (accepted, rejected, zero-length, close) the four getters, the return value and "
                 "get_last_file_written/get_last_dir_written are logged and compared with the specification's session record",
            bad_rate=0.2, empty_rate=0.1, observe_pairs=4, nvec=1)
